@@ -1158,3 +1158,208 @@ class C13(Spec):
 
     def simplifications(self, plan):
         return []
+
+
+def _structure_violations(bt, root, spec):
+    """sibling names unique; parent / root / members / full_name agree with the structure"""
+    out = []
+    seen = []
+
+    def walk(node, parent, full):
+        seen.append(node)
+        if node.root is not root:
+            out.append("%s.root is not the tree's root" % full)
+        if parent is None:
+            if node.parent is not node:
+                out.append("root.parent is not itself")
+        else:
+            if node.parent is not parent:
+                out.append("%s.parent is not the node that lists it" % full)
+            if parent.children.get(node.name) is not node:
+                out.append("%s is not registered under its own name in its parent" % full)
+        if node.full_name != full:
+            out.append("full_name %r, structure says %r" % (node.full_name, full))
+        names = list(node.children.keys())
+        if len(names) != len(set(names)):
+            out.append("%s has duplicate child names" % full)
+        for cn, c in node.children.items():
+            if c.name != cn:
+                out.append("%s child registered as %r is named %r" % (full, cn, c.name))
+            walk(c, node, full + ">" + cn)
+
+    walk(root, None, root.name)
+    mem = root.members
+    if len(mem) != len(seen) or any(a is not b for a, b in zip(mem, seen)):
+        out.append("members (%d) is not the depth-first list of the tree's nodes (%d)" % (len(mem), len(seen)))
+    return out
+
+
+def _eager_twin(tree):
+    t = _copy.deepcopy(tree)
+    for _p, s in drive_engine.trees.securities(t):
+        if s["decl"] in ("str", "lazy"):
+            s["decl"] = "obj"
+    return t
+
+
+@register
+class C19(Spec):
+    id = "C19"
+    tiers = {"quick": dict(runs=1500, builds=("py",), wall=75), "thorough": dict(runs=40000, builds=("py", "cy"), wall=1200)}
+    rule = (
+        "seeded trees are assembled through every constructor path (lists, dicts, strings, lazy objects, nested strategies, parent=), checked structurally, then run by the real Backtest with stock-algo stacks; the fault is lazy_child: a twin run "
+        "differs only in that every string / lazy child is constructed up front; node histories must agree to 1e-10 relative (absent node == flat zero rows), a spy at the head of every live stack checks universe.columns == declared tickers (all if none) + one column per sub-strategy, "
+        "integer_positions and the commission function must have reached every node incl. ones created mid-run; distinct = plan digest; non-trivial = a lazily declared child was created mid-run and traded"
+    )
+    assumptions = ["twin histories are compared with a tolerance (children iterate in a different order, so float summation order differs); in whole-unit mode a twin mismatch is counted as inconclusive (an ulp can flip a floor) unless positions agree"]
+
+    def gen(self, r, tier, i):
+        plan = drive_engine.gen_engine_plan(r, "mixed", tier) if i % 2 else drive_engine.gen_all_algos_plan(r, tier, stateful=False, random_algos=False)
+        # make sure some children are declared lazily
+        for _p, s in drive_engine.trees.strategies(plan["tree"]):
+            secs = [c for c in s["children"] if c["k"] == "X"]
+            if not secs and not any(c["k"] == "S" for c in s["children"]) and r.random() < 0.7:
+                names = r.sample(plan["feed"]["tickers"], r.randint(1, len(plan["feed"]["tickers"])))
+                s["children"] = [{"k": "X", "name": t, "cls": "Security", "mult": 1.0, "decl": "str"} for t in names]
+                drive_engine._restrict(s, names)
+                secs = s["children"]
+            for c in secs:
+                if r.random() < 0.7:
+                    c["decl"] = r.choice(["str", "lazy"])
+                    if c["decl"] == "str":
+                        c["mult"] = 1.0
+            if r.random() < 0.3 and s.get("how") == "list":
+                s["how"] = r.choice(["dict", "parent"]) if s["name"] != plan["tree"]["name"] else "dict"
+            s["algos"] = [{"a": "Spy", "id": 900}] + [a for a in s.get("algos", []) if a.get("a") not in ("Chaos", "SelectRandomly", "WeighRandomly")]
+        plan["cfg"]["obs_eod"] = False
+        if plan["cfg"].get("comm") is None and r.random() < 0.5:
+            plan["cfg"]["comm"] = {"kind": "prop", "rate": 0.001}
+        plan["seed"] = r.randrange(1 << 30)
+        return plan
+
+    def _run(self, bt, plan, cols):
+        sim = drive_engine.EngineSim(bt, plan, set())
+        sim.light = True
+
+        def hook(spy, target, t):
+            if spy.spec["id"] == 900 and target.root is sim.root:
+                cols.append((target.full_name, t, list(target.universe.columns)))
+
+        sim.spy_hook = hook
+        drive_engine.taps.install(bt)
+        rng.pin_globals(plan["seed"])
+        exc = None
+        try:
+            sim.setup()
+            sim.struct = _structure_violations(bt, sim.root, plan["tree"])
+            sim.bkt.run()
+        except Exception as e:  # noqa
+            exc = e
+        finally:
+            drive_engine.taps.set_current(None)
+        return sim, exc
+
+    def run(self, bt, plan):
+        import numpy as np
+
+        viol = []
+        fired = {}
+        info = {}
+        cols = []
+        lazy, lexc = self._run(bt, plan, cols)
+        if lazy.root is None:
+            return dict(viol=[{"check": "c19_exception", "detail": "construction failed: %r" % (lexc,), "flags": {}}], fired={}, nontrivial=False, info={})
+        for s in getattr(lazy, "struct", []):
+            viol.append({"check": "c19_structure", "detail": s, "flags": {}})
+            break
+        # universe scoping seen from inside the running strategies
+        tick = plan["feed"]["tickers"]
+        exp_cols = {}
+        for p, s in drive_engine.trees.strategies(plan["tree"]):
+            secs = [c["name"] for c in s["children"] if c["k"] == "X"]
+            subs = [c["name"] for c in s["children"] if c["k"] == "S"]
+            if secs:
+                exp_cols[">".join(p)] = [(set(secs) & set(tick)) | set(subs)]
+            elif not subs:
+                exp_cols[">".join(p)] = [set(tick)]
+            else:
+                # only sub-strategies declared: the statement leaves open whether that counts as "declared none"
+                # (children passed to the constructor -> no tickers; children attached later with parent= -> all tickers)
+                exp_cols[">".join(p)] = [set(subs), set(subs) | set(tick)]
+        for name, t, cl in cols:
+            if set(cl) not in exp_cols[name] or len(cl) != len(set(cl)):
+                viol.append({"check": "c19_universe", "detail": "date #%d: %s sees universe columns %s, declared %s" % (t, name, cl, sorted(exp_cols[name][0])), "flags": {}})
+                break
+        # settings pushed from the top reach every node, also those created mid-run
+        want_int = plan["cfg"]["integer"]
+        for n in lazy.root.members:
+            if bool(n.integer_positions) != bool(want_int):
+                viol.append({"check": "c19_settings", "detail": "%s has integer_positions=%r, the backtest was built with %r" % (n.full_name, n.integer_positions, want_int), "flags": {"setting": "integer_positions"}})
+                break
+            if hasattr(n, "capital") and lazy.commfn is not None and n.commission_fn is not lazy.commfn:
+                viol.append({"check": "c19_settings", "detail": "%s does not use the commission function given to the backtest" % n.full_name, "flags": {"setting": "commission"}})
+                break
+        # lazy vs eager twin
+        eager_plan = dict(plan, tree=_eager_twin(plan["tree"]))
+        eager, eexc = self._run(bt, eager_plan, [])
+        created = [n for n in lazy.root.members if not hasattr(n, "capital")]
+        declared_lazy = {">".join(p) for p, s in drive_engine.trees.securities(plan["tree"]) if s["decl"] in ("str", "lazy")}
+        lazily_traded = [n for n in created if n.full_name in declared_lazy and (n.data["position"].to_numpy() != 0).any()]
+        if lazily_traded:
+            fired["lazy_child"] = len(lazily_traded)
+        if (lexc is None) != (eexc is None):
+            sizing = [e for e in (lexc, eexc) if e is not None and any(str(e).startswith(st) for st in drive_tree.SIZING_STEMS)]
+            if sizing:
+                viol.append({"check": "C10.sizing_exception", "detail": str(sizing[0])[:80], "flags": {"stem": str(sizing[0])[:24]}})
+            else:
+                viol.append({"check": "c19_lazy_vs_eager", "detail": "lazy run %s, eager run %s" % ("raised %r" % (lexc,) if lexc else "completed", "raised %r" % (eexc,) if eexc else "completed"), "flags": {"kind": "exception"}})
+        elif lexc is None:
+            ha = drive_engine.histories(lazy.root)
+            hb = drive_engine.histories(eager.root)
+            worst = None
+            posdiff = False
+            gscale = max(1.0, float(np.nanmax(np.abs(lazy.root.data["value"].to_numpy(dtype=float)))))
+            for name in sorted(set(ha) | set(hb)):
+                ca, cb = ha.get(name, {}), hb.get(name, {})
+                for c in sorted(set(ca) | set(cb)):
+                    x, y = ca.get(c), cb.get(c)
+                    if x is None or y is None:
+                        z = x if x is not None else y
+                        x, y = z, np.zeros_like(z)
+                    if x.shape != y.shape:
+                        worst = (name, c, "length")
+                        break
+                    scale = max(gscale, float(np.nanmax(np.abs(np.concatenate([x, y])))) if len(x) else gscale)
+                    d = np.abs(np.nan_to_num(x) - np.nan_to_num(y))
+                    if len(d) and float(d.max()) > 1e-10 * scale + (1e-6 if c in ("price",) else 0) * 0:
+                        i = int(d.argmax())
+                        if c == "position":
+                            posdiff = True
+                        if worst is None:
+                            worst = (name, c, "row %d: %r (lazy) vs %r (eager)" % (i, x[i], y[i]))
+                if worst and worst[2] == "length":
+                    break
+            if worst is not None:
+                if want_int and posdiff:
+                    info["inconclusive_integer_flip"] = 1
+                else:
+                    viol.append({"check": "c19_lazy_vs_eager", "detail": "%s.%s %s" % worst, "flags": {"kind": "history", "integer": bool(want_int)}})
+        used = set()
+        for _p, s in drive_engine.trees.strategies(plan["tree"]):
+            for a in s.get("algos", []):
+                for x in [a] + a.get("algos", []) + ([a["algo"]] if "algo" in a else []) + ([a["inner"]] if "inner" in a else []):
+                    used.add(x.get("a"))
+                    for y in x.get("algos", []):
+                        used.add(y.get("a"))
+        for v in viol:
+            if v["check"] == "c19_lazy_vs_eager":
+                v["flags"]["uses_RunIfOutOfBounds"] = "RunIfOutOfBounds" in used
+                v["flags"]["uses_PTE_Rebalance"] = "PTE_Rebalance" in used
+                v["flags"]["uses_SelectTypes"] = "SelectTypes" in used
+        return dict(viol=viol, fired=fired, nontrivial=bool(lazily_traded), info=info, dates=len(plan["feed"]["dates"]) * 2, steps=len(cols))
+
+    def owns(self, check):
+        return check.startswith("c19_")
+
+    def simplifications(self, plan):
+        return drive_engine.simplifications(plan)
